@@ -53,15 +53,15 @@ type Spec struct {
 
 // OpResult is what one operation returned.
 type OpResult struct {
-	Op     Op
-	Err    string   // parse/read error text ("" = nil)
-	Errs   []string // process/getmodule errors in returned order
-	Dump   string   // process without errors: full canonical dump; query: result text
-	Panic  string   // recovered panic value ("" = none)
-	Frame  string   // first goyang frame of the panic stack
-	Stack  string
-	Ticks  uint64
-	Depth  int
+	Op      Op
+	Err     string   // parse/read error text ("" = nil)
+	Errs    []string // process/getmodule errors in returned order
+	Dump    string   // process without errors: full canonical dump; query: result text
+	Panic   string   // recovered panic value ("" = none)
+	Frame   string   // first goyang frame of the panic stack
+	Stack   string
+	Ticks   uint64
+	Depth   int
 	Overrun string // "ticks" or "depth" when a simulated bound was exceeded
 }
 
@@ -257,9 +257,11 @@ func Query(ms *yang.Modules, arg string) string {
 		m := ms.Modules[k]
 		e := yang.ToEntry(m)
 		fmt.Fprintf(&sb, "%s: errors=%d\n", k, len(e.GetErrors()))
+		budget := dump.NodeBudget
 		var walk func(e *yang.Entry, depth int)
 		walk = func(e *yang.Entry, depth int) {
-			if e == nil || depth > 40 {
+			budget--
+			if e == nil || depth > 40 || budget < 0 {
 				return
 			}
 			fmt.Fprintf(&sb, "%s ro=%v ns=%s", e.Path(), e.ReadOnly(), e.Namespace().Name)
